@@ -10,8 +10,9 @@
 (*                                                                                                *)
 (* Refines:  every step's verdict (Editing!Judge on the impl-shaped step) has its violations in   *)
 (*           Allowed when the behaviour runs "as the code is" (dev = DevAsIs; Allowed lists       *)
-(*           exactly the signatures of the known findings) and has none "as repaired"             *)
-(*           (dev = DevRepaired).  Both kinds of behaviour are explored in one run (Devs).        *)
+(*           exactly the signatures of the known findings: none since the five C11 fix: commits)  *)
+(*           and in FormerFindings when the repaired defects are seeded back (dev = DevSeeded).   *)
+(*           Both kinds of behaviour are explored in one run (Devs).                              *)
 (* StartOk:  the starting documents are sound.                                                    *)
 (* Finish prints a deterministic sample (EmitMod / C11_PICK) of the complete behaviours as JSON    *)
 (* lines for replay into lopdf; EmitViolations prints a sample (EmitModV) of the behaviours whose   *)
@@ -19,7 +20,7 @@
 EXTENDS EditingSys, Json, IOUtils
 
 CONSTANTS Starts,     \* set of start-document parameter records (see St)
-          Devs,       \* switch records explored (Editing!DevAsIs, Editing!DevRepaired)
+          Devs,       \* switch records explored (Editing!DevAsIs, Editing!DevSeeded)
           Allowed,    \* violation tags a step may produce
           Emit,
           EmitMod,    \* one complete behaviour in EmitMod is printed ...
@@ -108,9 +109,8 @@ StartDoc(s) ==
         max_id |-> MaxOf(ids),
         bms |-> [i \in 1..s.bm |-> PgA]]
 
-DevBoth   == {DevAsIs, DevRepaired}
+DevBoth   == {DevAsIs, DevSeeded}
 DevCode   == {DevAsIs}
-DevFixed  == {DevRepaired}
 
 BytesQuick    == {<<90>>}
 BytesThorough == {<<90>>, [i \in 1..64 |-> 120]}          \* a long run: the compressible class
@@ -232,8 +232,9 @@ SimSpec == Init /\ [][SimNext]_vars
 View == <<dev, doc, gh, n, fails, start, done, pend>>
 
 -----------------------------------------------------------------------------
-\* As the code is, the only violations are the listed findings; as repaired there are none.
-Refines == Violations(fails) \subseteq (IF dev.asis THEN Allowed ELSE {})
+\* As the code is, the only violations are the listed findings (none); with the repaired defects seeded back, the
+\* only violations are the five former findings.
+Refines == Violations(fails) \subseteq (IF dev.asis THEN Allowed ELSE FormerFindings)
 
 StartOk == n = 0 => JudgeState(doc, aux, gh.content) = {} /\ aux.sound
 
